@@ -257,6 +257,30 @@ def rowValid (sel : Selection) (row : Record) : Bool :=
 /-- `impl Select for Manifest` (never an error) -/
 def manifestSelect (sel : Selection) (m : List Record) : List Record := m.filter (rowValid sel)
 
+/-- `row.moltype()` unwraps `HashFunctions::try_from`, which is `unimplemented!` for a name it does not
+    know.  The closure reaches it only when a molecule type is requested and the ksize and abundance
+    clauses have left `valid` true (`&&` short-circuits). -/
+def rowPanics (sel : Selection) (row : Record) : Bool :=
+  match sel.moltype with
+  | none => false
+  | some _ =>
+    let valid :=
+      match sel.ksize with
+      | some ksize => row.ksize == ksize
+      | none => true
+    let valid :=
+      match sel.abund with
+      | some a => valid && row.withAbundance == a
+      | none => valid
+    valid && row.mol?.isNone
+
+/-- `impl Select for Manifest` with its panic: `none` when the closure panics on some row, else
+    `manifestSelect`.  Rows of `Record::from_sig`, and rows read from a CSV document whose molecule
+    column holds one of the four names in any letter case, never panic
+    (`Sourmash.C11.manifest_total`). -/
+def manifestSelect? (sel : Selection) (m : List Record) : Option (List Record) :=
+  if m.any (rowPanics sel) then none else some (manifestSelect sel m)
+
 /-- `Record::check_compatible` -/
 def checkCompatible (a b : Record) : Except Err Unit :=
   if a.ksize != b.ksize then .error .MismatchKSizes
